@@ -24,7 +24,7 @@ import (
 var LinkKinds = []string{"decl", "nexpr", "aexpr", "method", "ctor", "foreach", "map", "sort", "filter", "some", "every", "reduce",
 	"getter", "setter", "eval", "evalind", "bound", "call", "apply", "host", "notref"}
 
-var Noises = []string{"noop", "var", "obj", "eval0", "newobj", "ustr"}
+var Noises = []string{"noop", "var", "obj", "eval0", "newobj", "ustr", "evalthrow"}
 var Wraps = []string{"", "", "", "try-rethrow", "try-finally", "block"}
 var StmtForms = []string{"expr", "return", "var", "if", "binary", "arg", "cond", "comma", "paren"}
 
@@ -58,27 +58,27 @@ type Case struct {
 
 // Frame is one expected line of the stack trace.
 type Frame struct {
-	Name   string // function name ("" = anonymous function or global code)
-	Native bool   // built-in frame: "Name (<native code>)"
-	Host   bool   // Go host function frame: "<go name> (<file>.go:<line>)"
-	Label  string // file label of the executing construct ("<anonymous>" or the file name)
-	At     Pos    // start of the construct executing in this frame
-	End    Pos    // just after that construct
-	Exact  bool   // At is the documented position; otherwise any position within [At, End) is accepted
+	Name   string   // function name ("" = anonymous function or global code)
+	Native bool     // built-in frame: "Name (<native code>)"
+	Host   bool     // Go host function frame: "<go name> (<file>.go:<line>)"
+	Label  string   // file label of the executing construct ("<anonymous>" or the file name)
+	At     Pos      // start of the construct executing in this frame
+	End    Pos      // just after that construct
+	Exact  bool     // At is the documented position; otherwise any position within [At, End) is accepted
 	Wild   []string // known-finding ids that make this frame's location unreliable
-	Drop   string // known-finding id under which this frame is missing from the trace
+	Drop   string   // known-finding id under which this frame is missing from the trace
 	set    bool
 }
 
 // Expect is what ES5 prescribes for the raised value.
 type Expect struct {
-	Class      string   // native error constructor name; "" for thrown non-Error values
-	Thrown     string   // for non-Error values: typeof
-	Text       string   // for non-Error values: String(value); for user-constructed errors "Name: message" at throw time
-	UserMsg    bool     // the message was chosen by the script (may be empty)
-	Name       string   // expected e.name at the time of the throw
-	Message    *string  // expected e.message when known (user-constructed), nil otherwise
-	CtorName   string   // name and message at construction (finding C19-RENAMED-ERROR-TEXT compares modulo these)
+	Class      string  // native error constructor name; "" for thrown non-Error values
+	Thrown     string  // for non-Error values: typeof
+	Text       string  // for non-Error values: String(value); for user-constructed errors "Name: message" at throw time
+	UserMsg    bool    // the message was chosen by the script (may be empty)
+	Name       string  // expected e.name at the time of the throw
+	Message    *string // expected e.message when known (user-constructed), nil otherwise
+	CtorName   string  // name and message at construction (finding C19-RENAMED-ERROR-TEXT compares modulo these)
 	CtorMsg    string
 	Renamed    bool
 	Heads      []string // native frames that may sit on top of the innermost script frame
@@ -97,18 +97,19 @@ type Rendered struct {
 }
 
 type raiseSpec struct {
-	toks    func(at, end *Pos) []tk
-	class   string
-	heads   []string
-	exact   bool
-	wild    string
-	assign  bool // an assignment expression: only statement-level forms
-	stmt    bool // a statement (throw …): only statement-level forms
-	emptyID string
-	expect  func(e *Expect)
-	syntax  bool // the construct is a syntax error: the enclosing program (or eval code) does not parse
-	eof     bool // … reported at the end of the enclosing text
-	noRet   bool // variant needs a context where `return` is illegal
+	toks        func(at, end *Pos) []tk
+	class       string
+	heads       []string
+	exact       bool
+	wild        string
+	assign      bool // an assignment expression: only statement-level forms
+	stmt        bool // a statement (throw …): only statement-level forms
+	emptyID     string
+	expect      func(e *Expect)
+	syntax      bool // the construct is a syntax error: the enclosing program (or eval code) does not parse
+	eof         bool // … reported at the end of the enclosing text
+	noRet       bool // variant needs a context where `return` is illegal
+	openComment bool // the construct is an unterminated block comment
 }
 
 func mk(s string, markIdx int, at, end *Pos) []tk {
@@ -141,7 +142,7 @@ var RaiseKinds = []struct {
 	{"call-nonfn", 8}, {"member-nullish", 7}, {"unresolvable", 8}, {"array-length", 7}, {"number-format", 7},
 	{"eval-syntax", 5}, {"instanceof-in", 6}, {"json-cycle", 4}, {"uri", 2}, {"object-api", 7},
 	{"throw-native", 7 * 2 * 5}, {"throw-renamed", 7 * 3}, {"throw-prim", 7}, {"throw-object", 6},
-	{"syntax", 20},
+	{"syntax", 28},
 }
 
 func simple(class, s string, markIdx int, heads ...string) raiseSpec {
@@ -352,9 +353,19 @@ func raiseOf(r Raise) raiseSpec {
 			{pre: "tmp =", bad: "/[b-a]/", post: ";"},
 			{pre: "tmp =", bad: "/abc", nl: true, post: ";"},
 			{pre: "if ( ok ) {", bad: "noop", post: "( ) ;", eof: true},
+			// truncated programs: the error is at the end of the input
+			{pre: "tmp = ( 1", bad: "+", eof: true},
+			{pre: "tmp = [ 1", bad: ",", eof: true},
+			{pre: "noop ( 1", bad: ",", eof: true},
+			{pre: "tmp = 1", bad: "+", eof: true},
+			{pre: "function g1 ( )", bad: "{", eof: true},
+			{bad: "/* abc", eof: true},
+			{pre: "tmp = { a : 1", bad: ",", eof: true},
+			{pre: "tmp = ok", bad: "?", eof: true},
 		}
 		x := vs[v%len(vs)]
 		sp.eof, sp.noRet = x.eof, x.noRet
+		sp.openComment = strings.HasPrefix(x.bad, "/*")
 		sp.toks = func(at, end *Pos) []tk {
 			ts := words(x.pre)
 			if x.glue && len(ts) > 0 {
@@ -675,8 +686,17 @@ func (r *renderer) noise(w *writer, kinds []string, k int) {
 				lit = `"` + uniWords[r.tp.next(len(uniWords))] + `"`
 			}
 			w.emit(append(words("tmp ="), t(lit), t(";")))
-		case "eval0":
-			w.emit(words(`eval ( "0" ) ;`))
+		case "eval0", "evalthrow":
+			if nz == "eval0" {
+				w.emit(words(`eval ( "0" ) ;`))
+			} else {
+				// a direct eval whose code throws, caught by the same frame: the frame must
+				// be back in its own file afterwards on this path too
+				code := []string{"throw 1 ;", "nope2 ;", "\n  nul . x ;", "und ( ) ;", "var q = 1 ;\n throw new Error ( \"in eval\" ) ;"}[r.tp.next(5)]
+				toks := append(words("try { eval ("), t(jsLiteral(code)))
+				w.emit(append(toks, words(") ; } catch ( ex1 ) { }")...))
+				r.feat["noise:evalthrow"] = true
+			}
 			// finding C19-EVAL-FILE-STICKS: the frame keeps the eval code's file afterwards
 			// (unless the noise sits in text that never runs because it does not parse)
 			if fi := r.ctx[k]; fi >= 0 && !(k == len(r.c.Links) && r.c.Raise.Kind == "syntax") {
@@ -748,6 +768,7 @@ func (r *renderer) context(w *writer, k int) {
 	var st []tk
 	var wr string
 	var after func()
+	noTail := false
 	if k == n {
 		r.noise(w, r.c.Raise.Noise, k)
 		sp := raiseOf(r.c.Raise)
@@ -758,12 +779,17 @@ func (r *renderer) context(w *writer, k int) {
 			r2.Var = 12
 			sp = raiseOf(r2)
 		}
+		eofTail := false
 		if sp.eof {
 			wr = ""
+			eofTail = true
 		}
 		var at, end Pos
 		toks := sp.toks(&at, &end)
 		form := r.c.Raise.Stmt
+		if sp.eof {
+			form = "expr"
+		}
 		if !sp.exact && form == "binary" {
 			form = "paren" // keep a construct without a documented position syntactically isolated
 		}
@@ -775,7 +801,26 @@ func (r *renderer) context(w *writer, k int) {
 		}
 		if sp.syntax {
 			r.syntax, r.synEOF = true, sp.eof
-			after = func() { r.synAt = at }
+			after = func() {
+				r.synAt = at
+				if eofTail {
+					// text after the truncation point, still on the last line
+					inComment := sp.openComment
+					switch r.tp.next(6) {
+					case 0, 1:
+						if inComment { // the comment is the thing left open: stay inside it
+							w.raw(" " + w.commentText())
+						} else {
+							w.raw(" /* " + w.commentText() + " */")
+						}
+					case 2:
+						w.raw(" // " + w.commentText())
+					case 3:
+						w.raw("\t")
+					}
+				}
+			}
+			noTail = eofTail
 		} else {
 			after = func() { r.setFrame(w, r.ctx[n], at, end, sp.exact, sp.wild) }
 		}
@@ -857,7 +902,7 @@ func (r *renderer) context(w *writer, k int) {
 	if after != nil {
 		after()
 	}
-	if r.tp.next(3) == 0 {
+	if !noTail && r.tp.next(3) == 0 {
 		w.sep()
 		w.emit(words("noop ( ) ;"))
 	}
